@@ -39,12 +39,30 @@ def h_core_stab(ctx, shape, p0):
     ctx.claim('finite', finite(ctx, [Q]))
 
 
-def h_mul_scalar(ctx, n, r1, r2):
+def h_mul_scalar(ctx, n, r1, r2, bounded=False):
     """Stabilised scalar product: (v, p) with v*2^p = <Y1, Y2>; the d = 2 run is
     the inductive step (the first cores produce an arbitrary normalised state)."""
     Y1 = ctx.tt('a', n, r1)
     Y2 = ctx.tt('b', n, r2)
-    v, p = teneva.mul_scalar(Y1, Y2, use_stab=True)
+    seen = []
+    real_stab = teneva.core_stab
+
+    def spy(G, p0=0, thr=1.E-100):
+        seen.append(G.copy())
+        return real_stab(G, p0, thr)
+    teneva.core_stab = spy
+    try:
+        v, p = teneva.mul_scalar(Y1, Y2, use_stab=True)
+    finally:
+        teneva.core_stab = real_stab
+    # no intermediate exceeds what one core can contribute to a normalised state
+    # (mantissa < 2): 2 r1 r2 max_i(n_i max|G1_i| max|G2_i|) -- the representability
+    # argument behind "far outside the double-precision range"
+    # (decided for scalar cores only: max / abs atoms over sums are beyond the solver)
+    if bounded:
+        bound = ctx.max_([_maxabs(ctx, G1) * _maxabs(ctx, G2) * (2 * r1 * r2 * G1.shape[1]) for G1, G2 in zip(Y1, Y2)])
+        ctx.claim('intermediates_bounded_per_core', ctx.all_([ctx.le(_maxabs(ctx, W), bound) for W in seen]))
+    ctx.claim('rescaled_at_least_at_the_end', len(seen) >= 1)
     ref = (ref_full(Y1) * ref_full(Y2)).sum()
     ctx.claim('value', ctx.eq(v * pow2(ctx, p), ref))
     plain = teneva.mul_scalar(Y1, Y2)
@@ -185,6 +203,8 @@ def instances(tier):
             out.append({'func': 'h_core_stab', 'params': {'shape': list(shape), 'p0': p0}})
     for n, r1, r2 in ([([2, 2], 1, 1), ([2, 1], 2, 1)] if quick else [([2, 2], 1, 1), ([2, 1], 2, 1), ([2, 2], 2, 1), ([2, 1, 2], 1, 1)]):
         out.append({'func': 'h_mul_scalar', 'params': {'n': n, 'r1': r1, 'r2': r2}})
+    for n in ([1, 1], [1, 1, 1]):
+        out.append({'func': 'h_mul_scalar', 'params': {'n': n, 'r1': 1, 'r2': 1, 'bounded': True}})
     for n, r in ([([2, 1], 1), ([1, 2], 2)] if quick else [([2, 1], 1), ([1, 2], 2), ([2, 2], 1), ([1, 1, 2], 1)]):
         out.append({'func': 'h_norm', 'params': {'n': n, 'r': r}})
     for n, r, sg in ([([1, 1, 1], 1, False)] if quick else [([1, 1, 1], 1, False), ([1, 1], 1, True), ([2, 1], 1, False)]):
